@@ -6,6 +6,8 @@ package main
 
 import (
 	"bytes"
+	"errors"
+	"io"
 	"fmt"
 	"os"
 	"regexp"
@@ -770,11 +772,36 @@ func status(err error, panicked bool) Sx {
 	return A("ok")
 }
 
+// failingWriter refuses every write: the fault "the output cannot be written" at the first byte
+// (limit = 0) or after limit bytes have been accepted.
+type failingWriter struct{ limit int }
+
+func (f *failingWriter) Write(b []byte) (int, error) {
+	if len(b) <= f.limit {
+		f.limit -= len(b)
+		return len(b), nil
+	}
+	n := f.limit
+	f.limit = 0
+	return n, errors.New("verif: injected write failure")
+}
+
+// preFault runs one serialisation into a writer that fails (round 5b: a failed Serialize must leave
+// nothing behind that a later Serialize of the same process can pick up - pooled buffers, package
+// state).  Nothing is recorded: the observations that follow are judged by the round-trip oracles, so
+// any leftover of the failed attempt shows as a round-trip failure of the case itself.
+func preFault(ser func(w io.Writer) error) {
+	for _, lim := range []int{0, 3} {
+		Catch(func() { _ = ser(&failingWriter{limit: lim}) })
+	}
+}
+
 func observeBurndown(r *bdRes) []Sx {
 	an := &leaves.BurndownAnalysis{}
 	var obs []Sx
 	buf := &bytes.Buffer{}
 	var err error
+	preFault(func(w io.Writer) error { return an.Serialize(r.build(), true, w) })
 	_, p := Catch(func() { err = an.Serialize(r.build(), true, buf) })
 	obs = append(obs, T("ser", status(err, p)))
 	if !p && err == nil {
@@ -793,6 +820,7 @@ func observeBurndown(r *bdRes) []Sx {
 		}
 	}
 	tbuf := &bytes.Buffer{}
+	preFault(func(w io.Writer) error { return an.Serialize(r.build(), false, w) })
 	_, p3 := Catch(func() { err = an.Serialize(r.build(), false, tbuf) })
 	if p3 || err != nil {
 		obs = append(obs, T("text", status(err, p3)))
@@ -816,6 +844,7 @@ func observeDevs(r *dvRes) []Sx {
 	var obs []Sx
 	buf := &bytes.Buffer{}
 	var err error
+	preFault(func(w io.Writer) error { return an.Serialize(r.build(), true, w) })
 	_, p := Catch(func() { err = an.Serialize(r.build(), true, buf) })
 	obs = append(obs, T("ser", status(err, p)))
 	if !p && err == nil {
@@ -835,6 +864,7 @@ func observeDevs(r *dvRes) []Sx {
 	}
 	// text: one "      <dev>: [...]" line per (tick, developer), one "  - <name>" line per developer name
 	tbuf := &bytes.Buffer{}
+	preFault(func(w io.Writer) error { return an.Serialize(r.build(), false, w) })
 	_, p3 := Catch(func() { err = an.Serialize(r.build(), false, tbuf) })
 	obs = append(obs, T("text", status(err, p3)))
 	return obs
@@ -846,6 +876,7 @@ func observeCouples(r *cpRes) []Sx {
 	var obs []Sx
 	buf := &bytes.Buffer{}
 	var err error
+	preFault(func(w io.Writer) error { return an.Serialize(r.build(), true, w) })
 	_, p := Catch(func() { err = an.Serialize(r.build(), true, buf) })
 	obs = append(obs, T("ser", status(err, p)))
 	if !p && err == nil {
@@ -865,6 +896,7 @@ func observeCouples(r *cpRes) []Sx {
 	}
 	// text: no PrintMatrix block in this format; it is only run
 	tbuf := &bytes.Buffer{}
+	preFault(func(w io.Writer) error { return an.Serialize(r.build(), false, w) })
 	_, p3 := Catch(func() { err = an.Serialize(r.build(), false, tbuf) })
 	obs = append(obs, T("text", status(err, p3)))
 	return obs
